@@ -129,3 +129,6 @@ Qed.
 
 Lemma fops_null_unique : forall x, is_null fops x = true -> x = null fops.
 Proof. intros [|a]; simpl; congruence. Qed.
+
+Lemma zops_null_unique nullable nullv : forall x, is_null (zops nullable nullv) x = true -> x = null (zops nullable nullv).
+Proof. intros x. simpl. destruct nullable; simpl; [|discriminate]. intros H. now apply Z.eqb_eq in H. Qed.
